@@ -55,7 +55,7 @@ KINDS = c08.KINDS
 STATEFUL = {'panel', 'session', 'fixed_get', 'fixed_post', 'fixed_fail', 'boom_fixed_url', 'upload_typed', 'busy_str', 'badchunk_sizeline', 'echo_get', 'echo_post', 'echo_put', 'echo_head', 'upload', 'raise_resp', 'gen', 'crash', 'teapot', 'chunked_ok',
             'hookcrash', 'raise_err'}
 FAILING = ['notfound', 'notallowed', 'json404', 'badchunk', 'big', 'badpath', 'crash', 'hookcrash', 'raise_err', 'teapot',
-           'badchunk_json', 'badjson', 'badchunk', 'big', 'badchunk_sizeline', 'limit_num', 'badmultipart', 'upload_plain', 'boom_fixed_url', 'boom_fixed_url', 'fixed_fail', 'public', 'session', 'session']
+           'badchunk_json', 'badjson', 'badchunk', 'big', 'badchunk_sizeline', 'limit_num', 'badmultipart', 'upload_plain', 'boom_fixed_url', 'boom_fixed_url', 'fixed_fail', 'public', 'session', 'session', 'lazy_badchunk', 'lazy_big', 'reqerr']
 RETAIN_MAX = 6
 
 
